@@ -298,7 +298,7 @@ func runC15(c *Ctx) {
 			return isLookup && LoadsField(l.X, "cacheHandler", "teardownWaiters")
 		}, Edges: func(e EdgeInfo) bool {
 			// put: only a tearing-down resource needs the waiter table
-			return name == "put" && GlobAny([]string{"ne(call:(pkg/resource.Metadata).Phase(*call:(pkg/resource.Resource).Metadata(param#1))," + td + ")"}, e.Facts[0])
+			return name == "put" && FactEdge("ne(call:(pkg/resource.Metadata).Phase(*call:(pkg/resource.Resource).Metadata(param#1)),"+td+")")(e)
 		}}, 1)
 
 		if name == "put" {
